@@ -171,3 +171,68 @@ def strtab_pair(prog):
     if len(obs) < 2:
         raise AnalysisBroken('STRTAB-PAIR: only %d write_string/strlen pairs in write_elf.cpp' % len(obs))
     return RuleResult('STRTAB-PAIR', obs, 2, {})
+
+
+def shnum_pair(prog):
+    """SHNUM-PAIR: the ELF writer announces (e_shnum) exactly the section headers it writes, per CPU: every CPU-specific
+    `e_shnum++` (in the switch over cpu_type of write_elf_header) is matched by a write_shdr() call guarded by the same
+    CPU type, and vice versa.  A count that is one too high makes the section header table reach past the end of the
+    file: readelf rejects it and naken_util's own loader reads headers from beyond the file."""
+    from rules import caselen
+    files = ('fileio/write_elf.cpp',)
+    incr = {}
+    shdr = {}
+    anchors = 0
+    for fn in prog.functions(lambda f: f.file in files):
+        if not fn.blocks:
+            continue
+        # increments inside `switch (cpu_type)` arms
+        for n in fn.nodes.values():
+            if n['k'] != 'SwitchStmt':
+                continue
+            cond = None
+            for b in fn.blocks.values():
+                if b.get('term') == n['i']:
+                    cond = fn.nodes.get(b.get('cond'))
+            if cond is None or not show(strip(cond, casts=True)).endswith('cpu_type'):
+                continue
+            anchors += 1
+            for name, (ids, cns) in caselen._cases(fn, n).items():
+                for i in ids:
+                    x = fn.nodes.get(i)
+                    if x is not None and x['k'] == 'UnaryOperator' and x.get('op') == '++' and \
+                            show(strip(kids(x)[0])).endswith('e_shnum'):
+                        incr.setdefault(name, []).append(x)
+        # write_shdr calls under `if (cpu_type == ENUM)`
+        for c in fn.calls():
+            if (callee(c) or '').split('(')[0] != 'write_shdr':
+                continue
+            p = fn.parent.get(c['i'])
+            guard = None
+            while p is not None:
+                if p['k'] == 'IfStmt':
+                    cn = strip([k for k in kids(p) if k is not None][0])
+                    if cn['k'] == 'BinaryOperator' and cn.get('op') == '==':
+                        l, r = (strip(y, casts=True) for y in kids(cn))
+                        for a, b in ((l, r), (r, l)):
+                            if show(a).endswith('cpu_type') and b['k'] == 'DeclRefExpr' and b.get('dk') == 'enum':
+                                guard = b['n']
+                if guard:
+                    break
+                p = fn.parent.get(p['i'])
+            shdr.setdefault(guard, []).append(c)
+    if not anchors or not shdr.get(None):
+        raise AnalysisBroken('SHNUM-PAIR: switch over cpu_type / write_shdr calls not found in fileio/write_elf.cpp')
+    obs = []
+    for name in sorted(set(incr) | {k for k in shdr if k}):
+        a, b = len(incr.get(name, [])), len(shdr.get(name, []))
+        where = (incr.get(name) or shdr.get(name))[0]
+        ok = a == b
+        obs.append(Ob('SHNUM-PAIR', files[0], where['l'], 'write_elf', 'cpu:%s' % name, DISCHARGED if ok else VIOLATED,
+                      '' if ok else 'for %s e_shnum is incremented %d time(s) but %d CPU-specific section header(s) are written: the '
+                      'header announces %s section than the file holds (readelf: section headers extend past the end of the file; '
+                      'naken_util reads a header from beyond it)' % (name, a, b, 'one more' if a > b else 'fewer'),
+                      '%d CPU-specific increment(s), %d CPU-specific write_shdr call(s)' % (a, b), False))
+    obs.append(Ob('SHNUM-PAIR', files[0], shdr[None][0]['l'], 'write_elf', 'common-headers', DISCHARGED, '',
+                  '%d write_shdr calls are not CPU specific' % len(shdr[None]), False))
+    return RuleResult('SHNUM-PAIR', obs, 2, {})
